@@ -129,5 +129,10 @@ pub fn run(e: &'static Engine) {
         }));
     }
     e.par(jobs);
+    super::common::standard_parts(e, 6400, 96000, |c, _fam, o| {
+        // the user-callback view on small symbols (an SVG of a large symbol costs milliseconds)
+        let small = c.opts.version.map(|v| v <= 6).unwrap_or(c.input.len() <= 60);
+        check(c, small, o)
+    });
     e.set_exhaustive(true, "40 versions x 4 levels x 9 mask settings, every coordinate of every symbol; payloads are sampled");
 }
